@@ -163,6 +163,19 @@ def extract_marks(tree):
     return out
 
 
+def extract_env_bitset(tree):
+    """marshal_one_env, early-detach path: which slots of the frame are written out?  `1 & (bitset[i >> S] >> (i & M))`."""
+    src = csrc.strip_comments(csrc.read(tree, "src/core/marsh.c"))
+    body = csrc.func_body(src, "marshal_one_env")
+    m = re.search(r"uint32_t\s*\*\s*bitset\s*=\s*janet_stack_frame\s*\(\s*values\s*\)->func->def->closure_bitset\s*;\s*"
+                  r"for\s*\(\s*int32_t\s+i\s*=\s*0\s*;\s*i\s*<\s*env->length\s*;\s*i\+\+\s*\)\s*\{\s*"
+                  r"if\s*\(\s*1\s*&\s*\(\s*bitset\[\s*i\s*>>\s*(\w+)\s*\]\s*>>\s*\(\s*i\s*&\s*(\w+)\s*\)\s*\)\s*\)\s*\{\s*"
+                  r"marshal_one\s*\(\s*st\s*,\s*values\[i\]\s*,\s*flags\s*\+\s*1\s*\)\s*;\s*\}\s*else\s*\{\s*pushbyte\s*\(\s*st\s*,\s*LB_NIL\s*\)\s*;\s*\}\s*\}", body)
+    if not m:
+        raise ExtractError("marshal_one_env: early-detach loop over the closure bitset not recognised")
+    return {"envWordShift": csrc.cint(m.group(1)), "envBitMask": csrc.cint(m.group(2))}
+
+
 def render(tree):
     lb, c = extract(tree)
     out = [csrc.lean_header("src/core/marsh.c"), "namespace JanetModel.Gen.Marsh\n"]
@@ -178,5 +191,8 @@ def render(tree):
     out.append("first recursive call), `false` = after the last one -/")
     for k, v in extract_marks(tree).items():
         out.append("abbrev %s : Bool := %s" % (k, "true" if v else "false"))
+    out.append("\n/-- early-detach path of marshal_one_env: slot `i` is written iff `1 & (bitset[i >> envWordShift] >> (i & envBitMask))` -/")
+    for k, v in extract_env_bitset(tree).items():
+        out.append("abbrev %s : Nat := %d" % (k, v))
     out.append("\nend JanetModel.Gen.Marsh\n")
     return "\n".join(out)
